@@ -437,6 +437,34 @@ func ruleC09CloseChains(c *Ctx) {
 		}
 	}
 
+	// (b2) envelopeEncryption.Close skips the per-session cache on Policy.SharedIntermediateKeyCache alone, so the shared
+	// cache must exist whenever that flag and CacheIntermediateKeys are set: its construction may depend on those two
+	// policy flags only (any further condition leaves sessions with a private caching cache that nobody closes)
+	if nsf != nil {
+		nkc := u.Func(pkgApp, "newKeyCache")
+		allInstrs(nsf, func(i ssa.Instruction) {
+			if staticCallee(i) != nkc || nkc == nil {
+				return
+			}
+			if k, isC := constOf(callOf(i).Args[0]); !isC || k.ExactString() != "1" {
+				return
+			}
+			var extra []string
+			for _, fct := range baseFactsAt(i.Block()) {
+				pf := policyField(fct.V)
+				if (pf == "CacheIntermediateKeys" || pf == "SharedIntermediateKeyCache") && fct.True {
+					continue
+				}
+				if x, isNil, isT := nilTest(fct); isT && !isNil && strings.HasSuffix(accessPath(x), ".Policy") {
+					continue
+				}
+				extra = append(extra, describeLeaf(fct.V))
+			}
+			c.check(len(extra) == 0, "NewSessionFactory/shared-ik-cache-condition", u.ipos(i), "shared IK cache constructed exactly under CacheIntermediateKeys && SharedIntermediateKeyCache",
+				"the shared intermediate key cache is constructed only under an additional condition ("+strings.Join(extra, ", ")+") while envelopeEncryption.Close skips the per-session cache whenever Policy.SharedIntermediateKeyCache is set: in that configuration every session's own key cache is never closed")
+		})
+	}
+
 	// (c) simpleCache.Close closes every entry
 	if sc := u.Method(pkgApp, "simpleCache", "Close"); sc == nil {
 		c.unresolved("simpleCache.Close", "(*simpleCache).Close")
